@@ -180,3 +180,84 @@ E2E = Harness(
 )
 
 HARNESSES = [R, NAMES, E2E]
+
+
+# ------------------------------------------------------------------ add racing a generation
+import anyio  # noqa: E402
+
+from .common import Tape, pick  # noqa: E402
+from .rhist import Val  # noqa: E402
+
+
+def addrace_params(tier):
+    S = 5 if tier == "quick" else 8
+    return [P("fsteps", 0, 2), P("delay", 0, 3), P("api", 0, 1)] + [P(f"s{i}", 0, 3) for i in range(S)]
+
+
+@guard
+def addrace_fn(a, tier):
+    S = 5 if tier == "quick" else 8
+    fsteps, delay, api = pick(a["fsteps"], 3), pick(a["delay"], 4), pick(a["api"], 2)
+    tape = Tape([a[f"s{i}"] for i in range(S)])
+    seen = {}
+
+    async def factory():
+        for _ in range(fsteps):
+            await anyio.sleep(0)
+        return Val("generated")
+
+    async def main():
+        async with Context() as ctx:
+            ctx.add_resource_factory(factory, "x", types=[T0, T1])
+            static = Val("static")
+
+            async def getter():
+                seen["gen"] = await ctx.get_resource(T0, "x") if api == 0 else await ctx.get_resource(T1, "x")
+
+            async def adder():
+                for _ in range(delay):
+                    await anyio.sleep(0)
+                try:
+                    ctx.add_resource(static, "x", types=[T1])
+                    seen["added"] = True
+                except ResourceConflict:
+                    seen["added"] = False
+                seen["first_T1"] = ctx.get_resource_nowait(T1, "x") if (seen["added"] or "gen" in seen) else None
+
+            async with anyio.create_task_group() as tg:
+                tg.start_soon(getter)
+                tg.start_soon(adder)
+            seen["later_T1"] = [ctx.get_resource_nowait(T1, "x"), await ctx.get_resource(T1, "x"), ctx.get_resources(T1).get("x")]
+            seen["later_T0"] = await ctx.get_resource(T0, "x")
+            seen["static"] = static
+
+    _, exc, _k = run(main, chooser=tape)
+    summary = {"factory_checkpoints": fsteps, "adder_delay": delay, "getter_type": ["T0", "T1"][api], "schedule": tape.taken,
+               "static_add_succeeded": seen.get("added")}
+    if exc is not None:
+        return FAIL(f"addrace:raised:{type(exc).__name__}", repr(exc), summary)
+    first = seen.get("first_T1")
+    if seen["added"] and first is not seen["static"]:
+        return FAIL("addrace:static-not-returned-after-successful-add", repr(first), summary)
+    if first is not None and any(x is not first for x in seen["later_T1"]):
+        return FAIL("addrace:identity-changed-after-generation-finished", f"first={first!r} later={seen['later_T1']!r}", summary)
+    if not isinstance(seen["later_T0"], Val) or seen["later_T0"].label != "generated":
+        return FAIL("addrace:generated-not-under-its-free-type", repr(seen["later_T0"]), summary)
+    return OK(summary, True)
+
+
+ADDRACE = Harness(
+    prop="C03",
+    name="G-addrace",
+    fn=addrace_fn,
+    params=addrace_params,
+    cube=lambda tier: 3,
+    title="a static add_resource racing with an in-flight async multi-type generation",
+    bound_text=lambda tier: f"async factory for (T0,T1) awaiting 0-2 checkpoints; one task awaits get_resource(T0|T1), another adds a static T1 after 0-3 "
+    f"checkpoints and looks it up; first {5 if tier == 'quick' else 8} scheduling decisions arbitrary",
+    oracle="whatever (T1,'x') first resolved to is what every later lookup path returns; a successful add is what lookups return; the generated "
+    "object stays available under its free type",
+    outside="more tasks; factories that raise",
+    stubs=STUBS_COMMON,
+)
+HARNESSES.append(ADDRACE)
